@@ -12,6 +12,11 @@
      at that moment — the queue heads that fit their own peer's limit w.r.t. the current ledger —
      of the peers other than the one being released (whose waiting tickets all fail in that call).
 
+   It also asks whether an error of a release / release-peer call was legitimate: [monitor14] accepts
+   any step whose call returned an error; [monitor14x] requires that the peer then holds nothing and
+   has nothing waiting ([idle_peer]) — the call can only fail for an unknown peer.  (The converse is
+   not required: an idle status may linger.)
+
    [monitor14] / [monitor_C14] are unchanged; the apply step reuses [apply_outs14]. *)
 From Coq Require Import List NArith Bool.
 From GS Require Export Base Alloc.
@@ -45,7 +50,12 @@ Fixpoint apply_outs14x (tk : tkt_info) (mp : N) (outs : list out) (w : waitq) (l
       else None
   end.
 
-(* [monitor14] with [apply_outs14x] in place of [apply_outs14] *)
+(* a release / release-peer call may only return an error for a peer that holds nothing and has
+   nothing waiting *)
+Definition idle_peer (p : peer) (w : waitq) (l : ledger) : bool :=
+  N.eqb (led_get p l) 0 && match wq_get p w with [] => true | _ => false end.
+
+(* [monitor14] with [apply_outs14x] in place of [apply_outs14] and [idle_peer] on erroring calls *)
 Fixpoint monitor14x (mt mp : N) (tk : tkt_info) (nt : ticket) (w : waitq) (l : ledger)
          (ops : list op) (obsl : list obs) : bool :=
   match ops, obsl with
@@ -66,7 +76,8 @@ Fixpoint monitor14x (mt mp : N) (tk : tkt_info) (nt : ticket) (w : waitq) (l : l
             let w' := wq_set p (wq_get p w ++ [(nt, a)]) w in
             stable mt mp w' l && monitor14x mt mp tk' nt' w' l ops' obs'
       | ORelease p a =>
-          if o_err ob then list_eqb out_eqb (o_outs ob) [] && monitor14x mt mp tk' nt' w l ops' obs'
+          if o_err ob then list_eqb out_eqb (o_outs ob) [] && idle_peer p w l &&
+                           monitor14x mt mp tk' nt' w l ops' obs'
           else
             let cur := led_get p l in
             let l1 := led_set p (cur - (if a <=? cur then a else cur)) l in
@@ -75,7 +86,8 @@ Fixpoint monitor14x (mt mp : N) (tk : tkt_info) (nt : ticket) (w : waitq) (l : l
             | None => false
             end
       | OReleasePeer p =>
-          if o_err ob then list_eqb out_eqb (o_outs ob) [] && monitor14x mt mp tk' nt' w l ops' obs'
+          if o_err ob then list_eqb out_eqb (o_outs ob) [] && idle_peer p w l &&
+                           monitor14x mt mp tk' nt' w l ops' obs'
           else
             let l1 := led_set p 0 l in
             match apply_outs14x tk' mp (o_outs ob) w l1 (Some p) with
